@@ -45,14 +45,11 @@ func (c *Ctx) mustPassAll(fn *ssa.Function, gen func(ssa.Instruction) bool) (boo
 	}
 	ei := core.ErrorResultIndex(fn.Signature)
 	for _, r := range core.ReturnsOf(fn) {
-		if ei >= 0 && c.M.ProvablyNonNilError(core.RetVal(r, ei), r.Block()) {
+		if ei >= 0 && c.M.RetNonNil(r, ei) {
 			continue
 		}
 		st := inS[r.Block().Index]
-		for _, in := range r.Block().Instrs {
-			if in == ssa.Instruction(r) {
-				break
-			}
+		for _, in := range r.Before() {
 			if !st && gen(in) {
 				st = true
 			}
@@ -68,7 +65,7 @@ func (c *Ctx) mustPassAll(fn *ssa.Function, gen func(ssa.Instruction) bool) (boo
 			}
 		}
 		if !st {
-			return false, r
+			return false, r.Return
 		}
 	}
 	return true, nil
@@ -245,12 +242,12 @@ func (c *Ctx) ruleObjectRules(rule string) {
 		ok, n := true, 0
 		ei := core.ErrorResultIndex(fn.Signature)
 		for _, r := range core.ReturnsOf(fn) {
-			if c.M.ProvablyNonNilError(core.RetVal(r, ei), r.Block()) {
+			if c.M.RetNonNil(r, ei) {
 				continue
 			}
 			n++
 			guarded := false
-			for _, cond := range core.CondsAt(r.Block()) {
+			for _, cond := range r.Conds() {
 				if strings.HasSuffix(c.M.ValPath(cond.V), ".Disabled") && !cond.True {
 					guarded = true
 				}
@@ -315,11 +312,11 @@ func (c *Ctx) checkRuleRejects(rule string) {
 		ok, n := false, 0
 		ei := core.ErrorResultIndex(fn.Signature)
 		for _, r := range core.ReturnsOf(fn) {
-			if !c.M.ProvablyNonNilError(core.RetVal(r, ei), r.Block()) {
+			if !c.M.RetNonNil(r, ei) {
 				continue
 			}
 			// inside a loop over property.<getter>() with the data lookup of the loop element true?
-			for _, cond := range core.CondsAt(r.Block()) {
+			for _, cond := range r.Conds() {
 				t, isOk := core.CommaOk(cond.V)
 				if !isOk {
 					continue
@@ -350,10 +347,10 @@ func (c *Ctx) checkRuleRejects(rule string) {
 		ok := false
 		ei := core.ErrorResultIndex(fn.Signature)
 		for _, r := range core.ReturnsOf(fn) {
-			if !c.M.ProvablyNonNilError(core.RetVal(r, ei), r.Block()) {
+			if !c.M.RetNonNil(r, ei) {
 				continue
 			}
-			conds := core.CondsAt(r.Block())
+			conds := r.Conds()
 			if len(conds) > 0 {
 				if call, isCall := conds[0].V.(*ssa.Call); isCall && c.calledMethodName(call) == "Required" && conds[0].True {
 					ok = true
@@ -367,55 +364,53 @@ func (c *Ctx) checkRuleRejects(rule string) {
 		}
 		// required_if_not: rejects only when no listed property is set: the found flag is set under `set == true` and the reject under flag == false
 		k2 := key(rule, c.M.Key(fn), "required_if_not rejects only when none of the listed properties is set")
+		// Stated over paths, so that a found-flag, an early return or a helper all do: from the "is set" outcome of a
+		// lookup of a listed property no rejecting return can be reached (on a path that agrees with the flags it sets),
+		// and from the "is not set" outcome of one of them a rejecting return can.
 		flagOK := false
+		isReject := func(b *ssa.BasicBlock) bool {
+			if len(b.Instrs) == 0 {
+				return false
+			}
+			r, isRet := b.Instrs[len(b.Instrs)-1].(*ssa.Return)
+			return isRet && c.M.ProvablyNonNilError(core.RetVal(r, ei), b)
+		}
+		lookups, setRejects, unsetRejects := 0, 0, 0
 		for _, b := range fn.Blocks {
-			for _, in := range b.Instrs {
-				phi, isPhi := in.(*ssa.Phi)
-				if !isPhi {
+			if len(b.Instrs) == 0 {
+				continue
+			}
+			ifi, isIf := b.Instrs[len(b.Instrs)-1].(*ssa.If)
+			if !isIf || b.Succs[0] == b.Succs[1] {
+				continue
+			}
+			for _, cond := range edgeCond(b, b.Succs[0]) {
+				t, isOk := core.CommaOk(cond.V)
+				if !isOk {
 					continue
 				}
-				if bt, ok := phi.Type().Underlying().(*types.Basic); !ok || bt.Kind() != types.Bool {
+				lk, isLk := t.(*ssa.Lookup)
+				if !isLk || lk.X != ssa.Value(fn.Params[1]) || !c.elementOfGetter(lk.Index, "RequiredIfNot") {
 					continue
 				}
-				// edges: const true comes from a block dominated by a successful lookup of an element of RequiredIfNot()
-				trueFromSet, falseElsewhere := false, true
-				for i, e := range phi.Edges {
-					cst, isConst := e.(*ssa.Const)
-					if !isConst {
-						continue
-					}
-					if cst.Value != nil && cst.Value.String() == "true" {
-						pred := phi.Block().Preds[i]
-						for _, cond := range append(core.CondsAt(pred), edgeCond(pred, phi.Block())...) {
-							if t, isOk := core.CommaOk(cond.V); isOk && cond.True {
-								if lk, isLk := t.(*ssa.Lookup); isLk && lk.X == ssa.Value(fn.Params[1]) && c.elementOfGetter(lk.Index, "RequiredIfNot") {
-									trueFromSet = true
-								}
-							}
-						}
-						if !trueFromSet {
-							falseElsewhere = false
-						}
-					}
+				_ = ifi
+				lookups++
+				setSucc, unsetSucc := b.Succs[0], b.Succs[1]
+				if !cond.True {
+					setSucc, unsetSucc = unsetSucc, setSucc
 				}
-				if !trueFromSet || !falseElsewhere {
-					continue
+				if core.FlagReach(b, setSucc, isReject) {
+					setRejects++
 				}
-				// rejecting returns controlled by phi == false
-				for _, r := range core.ReturnsOf(fn) {
-					if !c.M.ProvablyNonNilError(core.RetVal(r, ei), r.Block()) {
-						continue
-					}
-					for _, cond := range core.CondsAt(r.Block()) {
-						if cond.V == ssa.Value(phi) && !cond.True {
-							flagOK = true
-						}
-					}
+				if core.FlagReach(b, unsetSucc, isReject) {
+					unsetRejects++
 				}
+				break
 			}
 		}
+		flagOK = lookups > 0 && setRejects == 0 && unsetRejects > 0
 		if flagOK {
-			c.R.Ok(rule, k2, c.M.Pos(fn.Pos()), "required_if_not", "the found flag becomes true only under a successful lookup of a listed property; the reject is controlled by the flag being false")
+			c.R.Ok(rule, k2, c.M.Pos(fn.Pos()), "required_if_not", "no rejecting return can be reached from the 'is set' outcome of a lookup of a listed property (on a path that agrees with the flags it sets); one can from the 'is not set' outcome")
 		} else {
 			c.R.Bad(rule, k2, c.M.Pos(fn.Pos()), "required_if_not with inverted or missing condition", "")
 		}
@@ -772,7 +767,7 @@ func (c *Ctx) resultTypes(dt *core.DynTypes, fn *ssa.Function, idx int) core.Typ
 	var out core.TypeSet
 	ei := core.ErrorResultIndex(fn.Signature)
 	for _, r := range core.ReturnsOf(fn) {
-		if ei >= 0 && c.M.ProvablyNonNilError(core.RetVal(r, ei), r.Block()) {
+		if ei >= 0 && c.M.RetNonNil(r, ei) {
 			continue
 		}
 		ts := dt.Of(core.RetVal(r, idx), r.Block())
@@ -904,7 +899,7 @@ func (c *Ctx) ruleDiscPresent(rule string) {
 		}
 		cnt := 0
 		for _, r := range core.ReturnsOf(fn) {
-			if len(r.Results) < 2 || c.M.ProvablyNonNilError(core.RetVal(r, ei), r.Block()) {
+			if len(r.Results) < 2 || c.M.RetNonNil(r, ei) {
 				continue
 			}
 			m := core.Unwrap(core.RetVal(r, 0))
@@ -940,7 +935,7 @@ func (c *Ctx) ruleDiscPresent(rule string) {
 				return ok && lk.X == m && isDiscKey(lk.Index)
 			}
 			k := key(rule, c.M.Key(fn), sprintf("accepting return #%d of the member's %s result carries the discriminator", cnt, side))
-			if mustHoldGen(fn, est, gen)[r.Block()] || gen(r.Block()) {
+			if mustHoldGen(fn, est, gen)[r.Key()] || gen(r.Block()) {
 				how := "the typed discriminator is stored under the discriminator key on every path"
 				if side == "Serialize" {
 					how = "on every path the discriminator was stored, or found present by a comma-ok lookup"
@@ -1000,17 +995,13 @@ func mustHoldGen(fn *ssa.Function, est func(core.Cond) bool, gen func(*ssa.Basic
 		if !ok || p.Succs[0] == p.Succs[1] {
 			return false
 		}
-		v := ifi.Cond
-		truth := p.Succs[0] == b
-		for {
-			u, ok := v.(*ssa.UnOp)
-			if !ok || u.Op != token.NOT {
-				break
+		_ = ifi
+		for _, cond := range core.EdgeConds(p, b) {
+			if est(cond) {
+				return true
 			}
-			v = u.X
-			truth = !truth
 		}
-		return est(core.Cond{V: v, True: truth})
+		return false
 	}
 	for changed := true; changed; {
 		changed = false
@@ -1026,6 +1017,11 @@ func mustHoldGen(fn *ssa.Function, est func(core.Cond) bool, gen func(*ssa.Basic
 				}
 			}
 		}
+	}
+	// the ways out that leave their block over a conditional edge (see core.Ret.Key)
+	edges, keys := core.EdgeKeysOf(fn)
+	for i, e := range edges {
+		in[keys[i]] = in[e[0]] || gen(e[0]) || edge(e[0], e[1])
 	}
 	return in
 }
